@@ -336,6 +336,9 @@ where
     sys.setrlimit(Resource::NOFILE, LimitPair { soft: limit as _, hard: hard as _ }).expect("setrlimit");
 
     let mut outs = Vec::with_capacity(ops.len());
+    // descriptors that refer to an anonymous temporary file (`tmp`): its mode is not observable by a script
+    // and differs (0600 from the tempfile crate, 0644 on the simulator), so `fstat` prints `=tmp:<size>`
+    let mut tmp_fds: std::collections::BTreeSet<i32> = Default::default();
     for op in ops {
         let w: Vec<&str> = op.split_whitespace().collect();
         let fdarg = |i: usize| w.get(i).and_then(|s| s.parse::<i32>().ok()).map(Fd);
@@ -440,8 +443,14 @@ where
                 let old = sys.umask(Mode::from_bits_retain(u32::from_str_radix(m, 8).unwrap_or(0) as _));
                 format!("={:o}", old.bits())
             }
+            // `Open::open_tmpfile` (here-documents)
+            ["tmp"] => {
+                let dir = yash_env::path::PathBuf::from(root);
+                res_fd(sys.open_tmpfile(&dir))
+            }
             ["fstat", _] => match fdarg(1) {
                 Some(fd) => match sys.fstat(fd) {
+                    Ok(st) if tmp_fds.contains(&fd.0) => format!("=tmp:{}", st.size()),
                     Ok(st) => show_stat(&st),
                     Err(e) => errno_name(e),
                 },
@@ -554,6 +563,41 @@ where
             },
             _ => "?".to_string(),
         };
+        // keep track of which descriptor numbers name a temporary file
+        let new_fd = o.strip_prefix('=').and_then(|n| n.parse::<i32>().ok());
+        match (w.first().copied(), new_fd) {
+            (Some("tmp"), Some(n)) => {
+                tmp_fds.insert(n);
+            }
+            (Some("dup"), Some(n)) | (Some("dup2"), Some(n)) => {
+                let src = w.get(1).and_then(|s| s.parse::<i32>().ok()).unwrap_or(-1);
+                if src != n {
+                    if tmp_fds.contains(&src) {
+                        tmp_fds.insert(n);
+                    } else {
+                        tmp_fds.remove(&n);
+                    }
+                }
+            }
+            (Some("open"), Some(n)) => {
+                tmp_fds.remove(&n);
+            }
+            (Some("close"), _) => {
+                if let Some(fd) = w.get(1).and_then(|s| s.parse::<i32>().ok()) {
+                    tmp_fds.remove(&fd);
+                }
+            }
+            (Some("pipe"), _) => {
+                if let Some((a, b)) = o.strip_prefix('=').and_then(|p| p.split_once(',')) {
+                    for n in [a, b] {
+                        if let Ok(n) = n.parse::<i32>() {
+                            tmp_fds.remove(&n);
+                        }
+                    }
+                }
+            }
+            _ => {}
+        }
         outs.push(o);
     }
 
@@ -811,9 +855,9 @@ fn run_seq_case(case: &str) {
 // ------------------------------------------------------------------------------------------
 // system-call generator
 
-const CLASSES: [&str; 12] = [
+const CLASSES: [&str; 13] = [
     "clean", "mkparent", "dirwrite", "emfile", "dotdot", "chdirup", "dup2same", "opendir", "filedot", "lsfull", "pipes",
-    "pipefull",
+    "pipefull", "fdflags",
 ];
 
 struct Gen {
@@ -1059,10 +1103,14 @@ impl Gen {
                 self.push_ls(&path)
             }
             98 => {
-                let op = match self.rng.below(6) {
+                let op = match self.rng.below(8) {
                     0 => "cwd".to_string(),
                     1 => "rlim".to_string(),
                     2 => format!("nb {fd}"),
+                    6 | 7 => {
+                        self.upper += 1;
+                        "tmp".to_string()
+                    }
                     _ => {
                         self.upper += 2;
                         "pipe".to_string()
@@ -1133,6 +1181,26 @@ impl Gen {
                     let acc = *self.rng.pick(&["r", "w", "rw"]);
                     self.ops.push(format!("open {path} {acc} - 666"));
                     self.upper += 1;
+                }
+            }
+            // flags of every descriptor-creating call: open (with/without cloexec), open_tmpfile, pipe, dup
+            // with/without cloexec, dup2 — each followed by fcntl_getfd
+            "fdflags" => {
+                let src = self.some_fd();
+                let (op, n) = match self.rng.below(7) {
+                    0 => ("tmp".to_string(), 1),
+                    1 => ("pipe".to_string(), 2),
+                    2 => (format!("dup {src} 0 e"), 1),
+                    3 => (format!("dup {src} 0 -"), 1),
+                    4 => (format!("dup2 {src} {}", self.some_fd()), 1),
+                    5 => ("open f1 r e 0".to_string(), 1),
+                    _ => ("open f1 r - 0".to_string(), 1),
+                };
+                self.ops.push(op);
+                self.upper += n;
+                for _ in 0..1 + self.rng.below(2) {
+                    let fd = self.some_fd();
+                    self.ops.push(format!("getfd {fd}"));
                 }
             }
             "pipes" => {
@@ -2165,7 +2233,7 @@ fn run_shell_case(tag: &str, script: &str) {
 /// (tag, script template); `%` is replaced by a per-instance suffix.  Tag `clean` = no catalogued
 /// divergence is involved.  Only built-ins of the real binary are used (`alias` without aliases is
 /// the do-nothing regular built-in, `typeset -p` the printer).
-const FRAGMENTS: [(&str, &str); 86] = [
+const FRAGMENTS: [(&str, &str); 91] = [
     ("clean", "x%=one; typeset -p x% >o%; x%=two; typeset -p x% >o%; read -r l <o%; typeset -p l"),
     ("clean", "x%=ap; typeset -p x% >>a%; x%=bp; typeset -p x% >>a%; umask >>a%"),
     ("clean", "set -C; alias >f1; s=$?; typeset -p s; typeset -p s >|f1; alias >n%; set +C; read -r l <f1; typeset -p l"),
@@ -2252,6 +2320,11 @@ const FRAGMENTS: [(&str, &str); 86] = [
     ("clean", "v%=0123456789abcdef; v%=$v%$v%$v%$v%$v%$v%$v%$v%; v%=$v%$v%$v%$v%$v%$v%$v%$v%; v%=$v%$v%; { typeset -p v%; typeset -p v%; typeset -p v%; } | { read -r l; n=${#l}; typeset -p n; }; s=$?; typeset -p s"),
     ("clean", "v%=0123456789abcdef; v%=$v%$v%$v%$v%$v%$v%$v%$v%; v%=$v%$v%$v%$v%$v%$v%$v%$v%; v%=$v%$v%; typeset -p v% | (exit 3); s=$?; typeset -p s; typeset -p v% | { read -r a; } ; typeset -p v% | alias | alias; s=$?; typeset -p s"),
     ("clean", "v%=0123456789abcdef; v%=$v%$v%$v%$v%$v%$v%$v%$v%; v%=$v%$v%$v%$v%$v%$v%$v%$v%; v%=$v%$v%; y%=$(typeset -p v% | alias; s=$?; typeset -p s); typeset -p y%; (typeset -p v% | alias; exit 6); s=$?; typeset -p s"),
+    ("clean", "exec 3<<END\nline% one\nsecond\nEND\nread -r a <&3; s=$?; read -r b <&3; exec 3<&-; t=$?; typeset -p a b s t; read -r c <&3; s=$?; typeset -p s"),
+    ("clean", "read -r x% 3<<END <&3\nhd% here\nEND\ns=$?; typeset -p x% s"),
+    ("clean", "exec 3<f1; exec 4<<END\nfour%\nEND\nread -r a <&4; read -r b <&3; exec 3<&- 4<&-; s=$?; typeset -p a b s"),
+    ("clean", "exec 3<<END\nsub%\nkept\nEND\n(read -r c <&3; typeset -p c); y%=$(read -r d <&3; typeset -p d); typeset -p y%; alias >&3; s=$?; typeset -p s; exec 4<&3 3<&-; read -r e <&4; t=$?; typeset -p e t; exec 4<&-"),
+    ("clean", "{ read -r a <&3; read -r b; typeset -p a b; } 3<<E3 <<E0\nthree%\nE3\nzero\nE0\nalias 3<<END 4<&3\nx\nEND\ns=$?; typeset -p s; read -r q <&3; s=$?; typeset -p s"),
 ];
 
 fn gen_script(rng: &mut Rng, allow_known: bool) -> (String, String) {
@@ -2339,7 +2412,7 @@ fn main() {
     let mut rng = Rng::new(opts.seed ^ 0xC19C_19C1);
     let n_seq = if thorough { 100_000 } else { 2_400 };
     for i in 0..n_seq {
-        let class = if i % 5 < 3 { "clean" } else { CLASSES[1 + (i / 5) % 11] };
+        let class = if i % 5 < 3 { "clean" } else { CLASSES[1 + (i / 5) % 12] };
         let case = gen_seq(&mut rng, class, thorough);
         if mine(&mut index) {
             run_seq_case(&case);
